@@ -226,6 +226,8 @@ RULES = [
                  ("util::has_extension", "searcher::Searcher::is_zip_archive", "fileinfo::to_file_info")), rule_prefix="archive-")),
     ("C19-R5", "a member's modification time is the stored wall-clock time, not resolved through the time zone", lambda ctx: r5(ctx)),
     ("X-CONFIG", "a setting read from both configurations is the user's value when present, the built-in default otherwise [shared]", lambda ctx: __import__("extra2").user_config_wins(ctx)),
+    ("X-PIPELINE", "archive members go through the per-entry pipeline with their own record (filter, count, row, sort keys) [shared]", lambda ctx: __import__("cfile").pipeline(ctx)),
+    ("X-ROOTS", "root options: defaults, per-root binding, options kept when a regexp root is expanded (archives, symlinks, depth window) [shared]", lambda ctx: __import__("extra").root_defaults(ctx)),
 ]
 
 EXPLANATION = (
